@@ -162,49 +162,35 @@ def _transpose_keys(run, R1, tp, vt, trows):
     tm = vt.loop_map(lp)
     if text(it) == trows and vt.t(c.args[0], tm) == "_v0" and vt.runs_for_all(lp, c):
       keysrc = f.value.id
+  # the result: one column per collected key, one value per row (None where the key is absent)
+  rets = _returns(tp)
   ok = False
-  retvar = None
-  if keysrc is not None:
-    for n in cfg.nodes:
-      s = n.stmt
-      if not (n.kind == "stmt" and isinstance(s, ast.Assign) and len(s.targets) == 1 and
-              isinstance(s.targets[0], ast.Subscript) and
-              isinstance(s.targets[0].value, ast.Name)):
-        continue
-      loops = vt.enclosing_loops(s)
-      if len(loops) != 1 or not isinstance(loops[0], ast.For):
-        continue
-      lp = loops[0]
-      it = vt.t(lp.iter)
-      tg = lp.target
-      tm = vt.loop_map(lp)
-      if it == keysrc + ".items()" and isinstance(tg, ast.Tuple) and len(tg.elts) == 2:
+  if keysrc is not None and len(rets) == 1:
+    try:
+      rc = vt.collection(rets[0].value)
+    except AnalysisError:
+      rc = None
+    if rc is not None and rc.kind == "dict" and not rc.conds:
+      it = rc.iter_text
+      if it == keysrc + ".items()":
         kv = "_v0_0"
-      elif it in (keysrc, keysrc + ".keys()") and isinstance(tg, ast.Name):
+      elif it in (keysrc, keysrc + ".keys()"):
         kv = "_v0"
       else:
-        continue
-      if not vt.runs_for_all(lp, s) or vt.t(s.targets[0].slice, tm) != kv:
-        continue
-      col = vt.res(s.value)
-      b = H.bind_args(col, ("type", "values")) if isinstance(col, ast.Call) and \
-          dotted(col.func) == "Col" else None
-      cc = _coll(vt, b.get("values")) if b else None
-      if cc is None or cc.conds or cc.iter_text != trows:
-        continue
-      # the element, with the outer loop's key variable as placeholder
-      e = vt.res(b["values"])
-      elt = e.elt if isinstance(e, ast.ListComp) else None
-      if elt is None:
-        continue
-      m2 = dict(tm)
-      m2.update({k: "_r" for k in cc.mapping})
-      got = text(H._Renamer(m2).visit(vt.x(elt, at=n.id)))
-      if got in ("_r.get(%s, None)" % kv, "_r.get(%s)" % kv):
-        ok = True
-        retvar = s.targets[0].value.id
-  rets = _returns(tp)
-  ok = ok and len(rets) == 1 and vt.t(rets[0].value) == retvar
+        kv = None
+      if kv is not None and rc.key == kv:
+        try:
+          ve = ast.parse(rc.value, mode="eval").body
+        except SyntaxError:
+          ve = None
+        b = H.bind_args(ve, ("type", "values")) if isinstance(ve, ast.Call) and \
+            dotted(ve.func) == "Col" else None
+        comp = b.get("values") if b else None
+        if isinstance(comp, ast.ListComp) and len(comp.generators) == 1 and \
+            not comp.generators[0].ifs and text(comp.generators[0].iter) == trows and \
+            isinstance(comp.generators[0].target, ast.Name):
+          rv_ = comp.generators[0].target.id
+          ok = text(comp.elt) in ("%s.get(%s, None)" % (rv_, kv), "%s.get(%s)" % (rv_, kv))
   run.ob(R1, tp.qualname, "for key in <union of all rows' keys>: transpose[key] = Col(.., "
          "[row.get(key, None) for row in rows])",
          "every key of any row becomes a column and a row lacking the key contributes None at "
